@@ -39,6 +39,14 @@ def check(ctx):
     drive(drv, "dfs", ["-bound", "2" if quick else "3", "-maxruns", "40000" if quick else "400000"])
     drive(drv, "random", ["-runs", "3000" if quick else "30000"])
     drive(free, "free", ["-runs", "2000" if quick else "12000"])
+    stalled = sum(r["counters"].get("stalled_runs", 0) for r in results.values())
+    if stalled:
+        # the implementation blocks in a primitive the shims do not model (e.g. a channel): controlled execution was
+        # given up, the verdict rests on free runs - so there are more of them
+        log("controlled execution not applicable to this tree (%d runs stalled): verdict from free runs" % stalled)
+        results["free1"] = results.pop("free")
+        trace_files.pop()          # the second free job writes the same trace file again
+        drive(free, "free", ["-runs", "12000" if quick else "40000"])
     recs, bad, vres = validate_traces(ctx, "parcache", "Trace_ParCache.tla", "Trace_ParCache.cfg", trace_files)
     violations = race_violations(rdir, "free runs of the unsubstituted par.Cache")
     for idx, invs in sorted(bad.items()):
